@@ -433,6 +433,9 @@ class SQLiteModel(data_algebra.db_model.DBModel):
             "floor": functools.partial(_wrap_numpy_fn, numpy.floor),
             "log": functools.partial(_wrap_numpy_fn, numpy.log),
             "log10": functools.partial(_wrap_numpy_fn, numpy.log10),
+            # replaces the built-in one argument ROUND, which rounds halves away from zero (and 0.49999999999999994 up):
+            # numpy, Pandas and Polars round halves to even
+            "round": functools.partial(_wrap_numpy_fn, numpy.round),
             "log1p": functools.partial(_wrap_numpy_fn, numpy.log1p),
             "sin": functools.partial(_wrap_numpy_fn, numpy.sin),
             "sinh": functools.partial(_wrap_numpy_fn, numpy.sinh),
